@@ -310,7 +310,7 @@ def mini_scenario(
     nodes_opts = {
         "hosts": obs_hosts, "num_services": 2, "num_applications": 1, "num_folders": 1, "num_files": 1, "num_nics": 1,
         "include_num_access": True, "include_nmne": True, "monitored_traffic": {"icmp": ["NONE"], "tcp": ["DNS", "HTTP"]},
-        "ip_list": ["192.168.1.2", "192.168.1.3"], "wildcard_list": ["0.0.0.1"], "port_list": ["HTTP", "DNS"], "protocol_list": ["ICMP", "TCP", "UDP"],
+        "ip_list": ["192.168.1.2", "192.168.1.3"], "wildcard_list": ["0.0.0.1", "0.0.0.255"], "port_list": ["HTTP", "DNS"], "protocol_list": ["ICMP", "TCP", "UDP"],
         "num_rules": 4, "num_ports": 2,
     }
     if kind != "switched":
